@@ -108,6 +108,17 @@ PROPS['C01'] = {
     'solvers': {'quick': ['z3'], 'thorough': ['z3', 'z3new']},
     'timeout': {'quick': 900, 'thorough': 3600},
 }
+PROPS['C04'] = {
+    'level': 'proof',
+    'pkgs': ['h40'],
+    'text': 'v4.0 Score equals the specification MacroVector algorithm (exact rationals, round half up) on every reachable object: the real Score/macroVector/lookupMV/severityDistance code is executed symbolically, the solver enumerates the cubes of its integer->float frontier (MacroVector levels, severity-distance sums, shortcut and loop conditions) jointly with the reference MacroVector and distance sums computed from the effective metric values, and the folded score of every cube is compared with the exact value. ' + FP_NOTE,
+    'bounds': 'none: complete over the 267,483,013,447,680,000 v4.0 objects (coverage of the cube set certified by the solver per MacroVector partition)',
+    'solvers': {'quick': ['z3'], 'thorough': ['z3']},
+    'per_harness': {'.': {'handler': 'fp_tabulate'}},
+    'technique': PROPS['C03']['technique'],
+    'assumptions': ['oracle data: /verif/spec/v4_data.json extracted from claircore\'s independent port of the FIRST calculator (lookup table, highest-severity vectors, depths); algorithm in /verif/spec/cvss4_spec.py and harness/h40/score.go written from the specification text'],
+}
+PROPS['C11']['pkgs'] = ['h20', 'h30', 'h31', 'h40']
 
 def harnesses(pid, tier, hf):
     cfg = PROPS[pid]
